@@ -54,6 +54,7 @@ const CONTEXTS: &[&str] = &["top", "function", "closure", "block", "nested-funct
 
 pub struct P13 {
     nseq: u64,
+    maxlen: u32,
     e2e: Vec<(usize, usize)>,
 }
 impl P13 {
@@ -70,7 +71,7 @@ impl P13 {
         } else {
             vec![]
         };
-        P13 { nseq: strings_upto(ITEMS.len() as u64, 3), e2e }
+        P13 { nseq: strings_upto(ITEMS.len() as u64, tier.pick(3, 4)), maxlen: tier.pick(3, 4), e2e }
     }
     fn n_inproc(&self) -> u64 {
         self.nseq * CONSTRUCTS.len() as u64 * CONTEXTS.len() as u64
@@ -79,7 +80,7 @@ impl P13 {
     fn build(&self, idx: u64) -> (String, usize, String) {
         let v = unrank(idx, &[CONTEXTS.len() as u64, CONSTRUCTS.len() as u64, self.nseq]);
         let (ctx, con) = (CONTEXTS[v[0] as usize], CONSTRUCTS[v[1] as usize]);
-        let seq = unrank_string(v[2], ITEMS.len() as u64, 3);
+        let seq = unrank_string(v[2], ITEMS.len() as u64, self.maxlen);
         let mut src = String::from(PRELUDE);
         src.push('\n');
         let mut line = 2; // next free line
@@ -185,7 +186,7 @@ impl Property for P13 {
         }
     }
     fn rule(&self) -> String {
-        format!("{} single-line failing constructs x every sequence of <=3 preceding items from {:?} (blank line, # and // comments, a let, a 3-line function, a 3-line if, a string literal and an array literal spanning two lines, a filter statement) x contexts {:?} (in-process: RTError.line) plus the filter-action context through the binary ('[line N] Runtime error' on stderr); the expected line is the line on which the harness placed the construct", CONSTRUCTS.len(), ITEMS.iter().map(|i| i.0.replace('\n', "\\n")).collect::<Vec<_>>(), CONTEXTS)
+        format!("{} single-line failing constructs x every sequence of <=3 (thorough 4) preceding items from {:?} (blank line, # and // comments, a let, a 3-line function, a 3-line if, a string literal and an array literal spanning two lines, a filter statement) x contexts {:?} (in-process: RTError.line) plus the filter-action context through the binary ('[line N] Runtime error' on stderr); the expected line is the line on which the harness placed the construct", CONSTRUCTS.len(), ITEMS.iter().map(|i| i.0.replace('\n', "\\n")).collect::<Vec<_>>(), CONTEXTS)
     }
     fn bounds(&self) -> Value {
         json!({"constructs": CONSTRUCTS.len(), "preceding_sequences": self.nseq, "contexts": CONTEXTS.len(), "filter_action_runs": self.e2e.len()})
